@@ -34,6 +34,13 @@ fn inject(x: f32, y: f32, z: f32, p: usize) -> Vec3A {
         return Vec3A::new(x, y, z);
     }
     let h = f32::from_bits(PAYLOADS[p]);
+    if p % 3 == 1 {
+        // a route that does not go through from_vec4: new() leaves a copy of z in the hidden lane, and a later write of the z lane through
+        // a field, an index, AsMut or with_z leaves that copy behind
+        let mut v = Vec3A::new(x, y, h);
+        match (p / 3) % 4 { 0 => { v.z = z; } 1 => { v[2] = z; } 2 => { v.as_mut()[2] = z; } _ => { v = v.with_z(z); } }
+        return v;
+    }
     if p % 2 == 0 {
         Vec3A::from_vec4(Vec4::new(x, y, z, h))
     } else {
